@@ -431,7 +431,11 @@ func guarded(f func() string) (out string) {
 	select {
 	case out = <-done:
 		return out
-	case <-time.After(20 * time.Second):
+	case <-time.After(120 * time.Second):
+		// a call that does not return within two minutes of real time is a harness problem (starved machine or a
+		// deadlock the scripts cannot attribute): exit 2, never a verdict
+		fmt.Fprintln(os.Stderr, "c05: watchdog: a call on the cache did not return within 120 s — harness error")
+		os.Exit(2)
 		return "hang"
 	}
 }
@@ -620,6 +624,11 @@ func (m *monitor) finish() []corr.Hit { h := m.hits; m.hits = nil; return h }
 
 func (m *monitor) sec() int64 { return m.w.nowMs() / 1000 }
 
+// The deadline of a key is computed from the HISTORY, not read from the cache: the clock reading at the latest
+// successful Set / update-ttl of the key (`dl - ttl`, whole seconds for the in-memory cache, milliseconds for redis)
+// plus the effective ttl. The property's reading of "elapsed" at the cache's own clock granularity:
+//   a Get at a reading  > t + d must miss;   a Get at a reading <= t + d (key not removed/consumed/evicted) must hit.
+
 // dead: the property says a Get of this key must miss now.
 func (s *shadow) dead(sec int64) bool {
 	if s == nil || !s.alive {
@@ -631,9 +640,18 @@ func (s *shadow) dead(sec int64) bool {
 	return s.dlKnown && !s.never && sec > s.dl
 }
 
-// present: the time-to-live of the key has certainly not elapsed yet (now_ms < t0_ms + ttl*1000).
+// present: the time-to-live of the key has not elapsed: reading <= t + d (in memory: seconds; redis: milliseconds).
 func (s *shadow) present(nowMs int64) bool {
-	return s != nil && s.alive && s.dlKnown && (s.never || nowMs < s.when)
+	if s == nil || !s.alive || !s.dlKnown {
+		return false
+	}
+	if s.never {
+		return true
+	}
+	if s.rds {
+		return nowMs <= s.when
+	}
+	return nowMs/1000 <= s.dl
 }
 
 func (m *monitor) effTTL(o op) int64 {
@@ -785,7 +803,7 @@ func (m *monitor) check(b *backend, o op, out string) bool {
 				// the property promises presence only for recently touched keys (mem) / always below the bound (rds)
 				if b.name == "mem" {
 					if n := b.othersSince(s.touch, key); n < m.w.size {
-						flag("recent-key-evicted", fmt.Sprintf("Get %s missed although its time-to-live has not elapsed (clock %d ms < set instant + ttl = %d ms; never=%v) and only %d other distinct keys were touched since (size=%d)", key, nowMs, s.when, s.never, n, m.w.size))
+						flag("recent-key-evicted", fmt.Sprintf("Get %s missed although its time-to-live has not elapsed (clock reading %d s <= Set reading + ttl = %d s; never=%v) and only %d other distinct keys were touched since (size=%d)", key, sec, s.dl, s.never, n, m.w.size))
 					}
 				} else if m.admissibleFor(b, o) {
 					flag("live-key-missed", fmt.Sprintf("Get %s missed on the redis-backed cache although it was set with a positive ttl whose deadline (%d) is not reached (clock %d)", key, s.dl, sec))
@@ -1097,6 +1115,82 @@ func genAdmissible(r *rng.R, n int) corr.Case {
 	return corr.Case{Tag: "admissible-both", Lines: g.lines}
 }
 
+// the boundary instants of a deadline, in-memory cache only: Set at reading t with ttl d, (keep-ttl Sets, plain Gets and
+// calls on other keys in between), then a Get at reading exactly t+d (any millisecond of that second: must hit) and one
+// at t+d+1 (must miss), then set-if-absent (must succeed). Size is large enough that nothing is evicted.
+func genDeadlineBoundary(r *rng.R) corr.Case {
+	g := &gen{r: r, nkeys: 3, ttls: []int64{1, 2, 3, 5, 60}}
+	dttl := r.PickI64(0, 2, 4)
+	clock := clock0 + int64(r.Intn(1000))
+	g.emit(fmt.Sprintf("new mem %d %d %d", r.Range(3, 5), dttl, clock))
+	tickTo := func(sec int64) {
+		target := sec*1000 + int64(r.PickInt(0, 0, 999, r.Intn(1000)))
+		if target <= clock {
+			target = sec*1000 + 999
+		}
+		if target > clock {
+			g.emit("tick " + strconv.FormatInt(target-clock, 10))
+			clock = target
+		}
+	}
+	for round := 0; round < r.Range(1, 3); round++ {
+		k := g.key()
+		tok := g.ttlTok(false)
+		d := dttl
+		if tok != "-" {
+			d, _ = strconv.ParseInt(tok, 10, 64)
+		}
+		if d <= 0 {
+			tok, d = "2", 2
+		}
+		g.emit(fmt.Sprintf("set %s %s %s 0 0", k, g.val(), tok))
+		dl := clock/1000 + d
+		// noise that must not move the deadline
+		for i := 0; i < r.Intn(4); i++ {
+			switch r.Intn(5) {
+			case 0:
+				g.emit(fmt.Sprintf("get %s 0 -", k))
+			case 1:
+				g.emit(fmt.Sprintf("set %s %s %s 0 1", k, g.val(), g.ttlTok(false))) // keep-ttl: new value, same deadline
+			case 2:
+				o := "k" + strconv.Itoa(3+r.Intn(2))
+				g.emit(fmt.Sprintf("set %s %s - 0 0", o, g.val()))
+			case 3:
+				if clock/1000 < dl {
+					tickTo(clock/1000 + int64(r.Intn(int(dl-clock/1000)+1)))
+				}
+			default:
+				if r.Chance(1, 2) { // update-ttl restarts the time-to-live
+					u := r.PickI64(1, 2, 3)
+					g.emit(fmt.Sprintf("get %s 0 %d", k, u))
+					dl = clock/1000 + u
+				}
+			}
+		}
+		if r.Chance(1, 3) && clock/1000 < dl-1 {
+			tickTo(dl - 1)
+			g.emit(fmt.Sprintf("get %s 0 -", k))
+		}
+		tickTo(dl)
+		g.emit(fmt.Sprintf("get %s 0 -", k))
+		if r.Chance(1, 2) {
+			g.emit(fmt.Sprintf("set %s %s - 1 0", k, g.val())) // still live: already-exists
+		}
+		tickTo(dl + 1)
+		switch r.Intn(3) {
+		case 0:
+			g.emit(fmt.Sprintf("get %s 0 -", k))
+		case 1:
+			g.emit(fmt.Sprintf("set %s %s - 1 0", k, g.val()))
+			g.emit(fmt.Sprintf("get %s 0 -", k))
+		default:
+			g.emit(fmt.Sprintf("get %s 1 -", k))
+		}
+	}
+	g.probeAll()
+	return corr.Case{Tag: "deadline-boundary-mem", Lines: g.lines}
+}
+
 // many distinct keys against a small bound, then a probe of all of them at one instant
 func genBound(r *rng.R) corr.Case {
 	size := r.Range(0, 4)
@@ -1239,8 +1333,10 @@ func spec() corr.Spec {
 				n = r.Range(30, 90)
 			}
 			switch x := r.Intn(20); {
-			case x < 6:
+			case x < 5:
 				return genWild(r, "mem", n)
+			case x < 6:
+				return genDeadlineBoundary(r)
 			case x < 11:
 				return genAdmissible(r, n)
 			case x < 15:
